@@ -154,10 +154,10 @@ int main(int argc, char **argv)
 		logline(line);
 		if (!strcmp(op, "init"))
 		{
-			char dir[2048], kind[4], order[4], uuid[128];
+			char dir[2048], kind[4], order[4], uuid[1024];
 			uint64_t subdir_s, file_ms, start, n, d;
 			int comp, checksum, cont;
-			if (fscanf(fp, "%2047s %3s %d %3s %" SCNu64 " %" SCNu64 " %" SCNu64 " %" SCNu64 " %" SCNu64 " %127s %d %d %d %d %d %" SCNu64,
+			if (fscanf(fp, "%2047s %3s %d %3s %" SCNu64 " %" SCNu64 " %" SCNu64 " %" SCNu64 " %" SCNu64 " %1023s %d %d %d %d %d %" SCNu64,
 					   dir, kind, &size, order, &subdir_s, &file_ms, &start, &n, &d, uuid, &comp, &checksum,
 					   &is_complex, &nsub, &cont, &salt) != 16)
 			{ fprintf(stderr, "bad init\n"); return 2; }
